@@ -1,6 +1,6 @@
 //! C27-C30: plans (seeded fault schedules), execution, registry.
 
-use crate::sim::*;
+use crate::cur::sim::*;
 use serde_json::Value;
 use simcore::harness::*;
 use simcore::{Fnv, Rng};
@@ -148,6 +148,42 @@ fn exec_plan(plan: &Plan) -> RunReport {
         rep.known_cut = Some(c.clone());
         rep.count("entered_known_defect_territory", 1);
     }
+    // ---- is a recorded deviation on this history the recorded defect? Ask the recorded baseline of the consensus
+    // core (baseline/raft.rs, the code the known findings were recorded on): if it shows the same deviation on the same
+    // plan, it is; if it does not, the deviation is new behaviour of the code under test on this history, the run is
+    // executed again without the cut and judged, and a violation carries a class of its own.
+    let touched: Option<String> = sim.cut.clone().or_else(|| sim.violations.iter().any(|v| v.property == plan.focus).then(|| sim.ghosts.iter().find(|g| known_roots.contains(g)).cloned()).flatten());
+    if let Some(g) = touched {
+        let base_ghosts = baseline_ghosts(plan);
+        rep.count("baseline_consulted", 1);
+        if !base_ghosts.contains(&g) {
+            rep.count("recorded_deviation_absent_from_baseline", 1);
+            let mut full = plan.clone();
+            full.no_cut = true;
+            let mut map = BTreeMap::new();
+            for ev in &full.events {
+                if let Ev::Msg { from, to, seq, act } = ev {
+                    map.insert((*from, *to, *seq), act.clone());
+                }
+            }
+            let mut sim2 = Sim::new(&full, Chooser::Replay(map));
+            if let Caught::Panic(p) = catch(|| sim2.run()) {
+                rep.viols.push(Viol { property: plan.focus.clone(), class: panic_class(&p), detail: p, trial: 0 });
+                return rep;
+            }
+            if let Some(v) = sim2.violations.iter().find(|v| v.property == plan.focus) {
+                let short = g.split(':').next().unwrap_or("G?").to_string();
+                rep.viols.push(Viol {
+                    property: v.property.to_string(),
+                    class: format!("{} via {g} on a history where the recorded baseline shows no {short}", v.class),
+                    detail: format!("{} [the recorded baseline of raft.rs, run on the same plan, shows the deviations {:?}]", v.detail, base_ghosts),
+                    trial: 0,
+                });
+            }
+            rep.known_cut = None;
+            return rep;
+        }
+    }
     for v in &sim.violations {
         if v.property == plan.focus {
             // the class carries the root-cause signature: the first ghost-monitor deviation on the trace
@@ -161,6 +197,24 @@ fn exec_plan(plan: &Plan) -> RunReport {
         }
     }
     rep
+}
+
+/// The deviations (ghost monitors) the recorded baseline shows on this plan, run to its end without any cut.
+fn baseline_ghosts(plan: &Plan) -> Vec<String> {
+    use crate::base::sim as b;
+    let mut bplan: b::Plan = serde_json::from_value(serde_json::to_value(plan).unwrap()).expect("plan round trip");
+    bplan.no_cut = true;
+    let mut map = BTreeMap::new();
+    for ev in &bplan.events {
+        if let b::Ev::Msg { from, to, seq, act } = ev {
+            map.insert((*from, *to, *seq), act.clone());
+        }
+    }
+    let mut sim = b::Sim::new(&bplan, b::Chooser::Replay(map));
+    match catch(|| sim.run()) {
+        Caught::Panic(_) => vec!["baseline-panicked".to_string()],
+        _ => sim.ghosts.clone(),
+    }
 }
 
 macro_rules! raft_check {
